@@ -34,7 +34,7 @@ def handle (op real : String) : Verdict := Id.run do
           | some .backendError => outs := outs ++ ["err:backend"]
           | _ => pure ()
         | _ => pure ()
-      | 'q' =>
+      | 'q' | 'e' =>
         let i := arg.toNat?.getD 0
         -- KeyspaceOK on the real observation, from the client's own last successful USE
         match s.clients[i]? with
